@@ -12,7 +12,7 @@ META = {
     'assumptions': ['canon = Debug rendering with spans / node, res, loop ids / int display formats removed, -<literal> folded, floats compared by bits (harness/src/canon.rs)'],
     'floors': {'roundtrips_ok': 500, 'widths_seen': 6, 'built_ast_cases': 50},
 }
-SIZES = {'quick': 1500, 'thorough': 40000}
+SIZES = {'quick': 4500, 'thorough': 40000}
 
 def fbits(x): return struct.unpack('<I', struct.pack('<f', x))[0]
 
